@@ -415,67 +415,102 @@ def normalise_reply(b):
     return b
 
 
-def c17_live(rng, workers=(1, 2, 4), concurrent=3):
+def _c17_run_mode(rng, origin, corpus, mode, w, concurrent):
+    """all conversations of the corpus through one proxy instance; returns {name: transcript}"""
+    with running_proxy(mode, workers=w) as p:
+        pport = p.flags.port
+        time.sleep(0.5)
+        # let freshly forked workers settle: one throw-away request per worker
+        for k in range(2 * w):
+            with contextlib.suppress(OSError):
+                canary_request(pport, origin.port, 1000 + k, timeout=8.0)
+        with origin.lock:
+            origin.records.clear()
+        transcripts = {}
+        lock = threading.Lock()
+
+        def run_one(name, payloads, kw):
+            try:
+                got, ending = client_exchange(pport, payloads, **dict(dict(read_timeout=8), **kw))
+            except OSError as e:
+                got, ending = b'', 'client-error:%s' % type(e).__name__
+            with lock:
+                transcripts[name] = dict(client_received=got, ending=ending)
+        items = list(corpus)
+        rng.shuffle(items)
+        for k in range(0, len(items), concurrent):
+            ths = [threading.Thread(target=run_one, args=it) for it in items[k:k + concurrent]]
+            for t in ths: t.start()
+            for t in ths: t.join(timeout=40)
+        time.sleep(0.5)
+        with origin.lock:
+            recs = [dict(r) for r in origin.records]
+        for r in recs:
+            if r['tag'] and r['tag'] in transcripts:
+                transcripts[r['tag']]['upstream_received'] = r['received']
+                col = []
+                for e in r['events']:
+                    # data segmentation on loopback is timing dependent: collapse runs of 'data'
+                    if not (col and col[-1] == e == 'data'):
+                        col.append(e)
+                transcripts[r['tag']]['upstream_events'] = col
+        return transcripts
+
+
+def _c17_diff(a, b):
+    for name in sorted(set(a) | set(b)):
+        x, y = a.get(name), b.get(name)
+        if x != y:
+            keys = [k for k in set(x or {}) | set(y or {}) if (x or {}).get(k) != (y or {}).get(k)]
+            short = lambda d: {k: ((d or {}).get(k)[:120] if isinstance((d or {}).get(k), bytes) else (d or {}).get(k)) for k in keys}
+            return name, keys, short(x), short(y)
+    return None
+
+
+def c17_live(rng, workers=(1, 2, 4), concurrent=3, attempts=3):
+    """the conversation corpus under --threaded, --threadless --local-executor 1 and --local-executor 0 with 1/2/4
+    acceptors/workers and concurrent clients; per-conversation transcripts (bytes the client received and how the
+    conversation ended, bytes the origin received, order of data/close events at the origin) must be identical.
+    The machine is shared and heavily loaded: a run that differs is repeated (up to `attempts` times) and only a
+    persistent difference counts."""
     origin = Origin()
-    res = dict(runs=0, conversations=0, failure=None, modes=[])
+    res = dict(runs=0, conversations=0, failure=None, modes=[], retries=0)
     try:
         corpus = conversation_corpus(origin.port)
-        reference = None
+        # reference: two consecutive threaded runs that agree
+        reference, prev = None, None
+        for _ in range(4):
+            cur = _c17_run_mode(rng, origin, corpus, 'threaded', 1, concurrent)
+            res['runs'] += 1
+            if prev is not None and _c17_diff(prev, cur) is None:
+                reference = cur
+                break
+            prev = cur
+        if reference is None:
+            res['failure'] = 'the thread-per-connection mode does not even agree with itself on two consecutive runs: %r' % (_c17_diff(prev, cur),)
+            return res
+        res['modes'].append('threaded/1')
         for mode in ('threaded', 'local', 'remote'):
             for w in workers:
-                with running_proxy(mode, workers=w) as p:
-                    pport = p.flags.port
-                    time.sleep(0.3)
-                    with origin.lock:
-                        origin.records.clear()
-                    transcripts = {}
-                    lock = threading.Lock()
-
-                    def run_one(name, payloads, kw):
-                        try:
-                            got, ending = client_exchange(pport, payloads, **dict(dict(read_timeout=4), **kw))
-                        except OSError as e:
-                            got, ending = b'', 'client-error:%s' % type(e).__name__
-                        with lock:
-                            transcripts[name] = dict(client_received=got, ending=ending)
-                    # concurrent clients: `concurrent` conversations at a time
-                    items = list(corpus)
-                    rng.shuffle(items)
-                    for k in range(0, len(items), concurrent):
-                        ths = [threading.Thread(target=run_one, args=it) for it in items[k:k + concurrent]]
-                        for t in ths: t.start()
-                        for t in ths: t.join(timeout=15)
-                    time.sleep(0.5)
-                    with origin.lock:
-                        recs = [dict(r) for r in origin.records]
-                    for r in recs:
-                        if r['tag'] and r['tag'] in transcripts:
-                            transcripts[r['tag']]['upstream_received'] = r['received']
-                            ev = [e for e in r['events']]
-                            # data segmentation on loopback is timing dependent: collapse runs of 'data'
-                            col = []
-                            for e in ev:
-                                if not (col and col[-1] == e == 'data'):
-                                    col.append(e)
-                            transcripts[r['tag']]['upstream_events'] = col
+                if (mode, w) == ('threaded', 1):
+                    continue
+                d = None
+                for a in range(attempts):
+                    t = _c17_run_mode(rng, origin, corpus, mode, w, concurrent)
                     res['runs'] += 1
-                    res['conversations'] += len(transcripts)
-                    res['modes'].append('%s/%d' % (mode, w))
-                    if reference is None:
-                        reference = (mode, w, transcripts)
-                    else:
-                        for name in sorted(transcripts):
-                            a, b = reference[2].get(name), transcripts[name]
-                            if a != b:
-                                keys = [k for k in set(a) | set(b) if a.get(k) != b.get(k)]
-                                res['failure'] = ('conversation %r differs between %s/%d and %s/%d in %s: %r vs %r' % (
-                                    name, reference[0], reference[1], mode, w, keys,
-                                    {k: (a.get(k)[:120] if isinstance(a.get(k), bytes) else a.get(k)) for k in keys},
-                                    {k: (b.get(k)[:120] if isinstance(b.get(k), bytes) else b.get(k)) for k in keys}))
-                                return res
+                    res['conversations'] += len(t)
+                    d = _c17_diff(reference, t)
+                    if d is None:
+                        break
+                    res['retries'] += 1
+                if d is not None:
+                    res['failure'] = 'conversation %r differs between threaded/1 and %s/%d in %s (persistently, %d runs): %r vs %r' % (
+                        d[0], mode, w, d[1], attempts, d[2], d[3])
+                    return res
+                res['modes'].append('%s/%d' % (mode, w))
         res['reference'] = {k: dict(client_len=len(v['client_received']), ending=v['ending'],
                                     upstream_len=len(v.get('upstream_received', b'')), upstream_events=v.get('upstream_events'))
-                            for k, v in (reference[2].items() if reference else [])}
+                            for k, v in reference.items()}
     finally:
         origin.close()
     return res
